@@ -77,11 +77,14 @@ Record case_C11 := {
   k_op : cop;
   k_wss : list path;
   k_pre : fs;
-  k_probe : probe
+  k_probe : probe;
+  k_noload : bool;          (* re-key by `job.statepoint = nsp` through a handle that never read its state point *)
+  k_clean : option fs       (* the tree the IMPLEMENTATION leaves after the same operation WITHOUT any fault, when
+                               that run returned normally (the reference for "an error that was swallowed") *)
 }.
 
 Definition frepr_of (c : case_C11) : fl -> str := ftab_lookup (k_ftab c).
-Definition prog_of (c : case_C11) : prog unit := op_prog (frepr_of c) (k_atomic c) (k_op c).
+Definition prog_of (c : case_C11) : prog unit := op_prog_r (frepr_of c) (k_atomic c) (k_noload c) (k_op c).
 
 (* ------------------------------------------------------------------ comparing observations *)
 Definition content_match (a b : content) : bool :=
@@ -181,7 +184,7 @@ Definition mismatch_C11 (c : case_C11) : bool :=
       | None => true
       | Some k =>
           let '(f1, o1) := run_fault (single k e) 0 (prog_of c) (k_pre c) in
-          let '(f2, o2) := run_fault (single k e) 0 (follow_prog fr (k_atomic c) (k_op c) fo) (k_pre c) in
+          let '(f2, o2) := run_fault (single k e) 0 (follow_prog_r fr (k_atomic c) (k_noload c) (k_op c) fo) (k_pre c) in
           negb (out_match o1 out1 && fobs_match fr (k_wss c) f1 mid
                 && match o2 with
                    | inl (r1, r2) => out_match r1 out1 && out_match r2 out2
@@ -259,6 +262,16 @@ Definition follow_ok (c : case_C11) (mid : fobs) (fo : fop) (final : fobs) : boo
                | None => false
                end) (wo_listed w)) (fo_ws final).
 
+(* "never a silent partial success": a run in which an injected error was SWALLOWED (the operation returned
+   normally although a file-system call failed) must leave exactly what the operation leaves without the fault.
+   Judged on the implementation's two observations; anything extra (a stray backup or temp file), missing or
+   different below a workspace is a partial result that nobody was told about. *)
+Definition same_as_clean (c : case_C11) (post : fobs) : bool :=
+  match k_clean c with
+  | Some t => tree_match t (fo_tree post)
+  | None => true
+  end.
+
 Definition holds_C11 (c : case_C11) : bool :=
   match k_probe c with
   | PCrash out sts =>
@@ -271,11 +284,12 @@ Definition holds_C11 (c : case_C11) : bool :=
   | PFault _ _ _ out post =>
       match out with
       | None => post_ok (frepr_of c) (k_op c) (k_pre c) (fo_tree post) && holds_obs c post   (* never a silent partial success *)
+                && same_as_clean c post
       | Some _ => holds_obs c post && fault_state_ok c post   (* an exception, and the pre-state or a detectable CInv state *)
       end
   | PFault2 _ _ _ _ _ _ out post =>
       match out with
-      | None => post_ok (frepr_of c) (k_op c) (k_pre c) (fo_tree post) && holds_obs c post
+      | None => post_ok (frepr_of c) (k_op c) (k_pre c) (fo_tree post) && holds_obs c post && same_as_clean c post
       | Some _ => holds_obs c post && fault_state_ok c post
       end
   | PFollow _ _ _ out1 mid fo _ final =>
@@ -295,12 +309,33 @@ Definition violations_C11 (cs : list case_C11) : list N := indices_where violati
    rejected by an I/O error at the parking of the state point file): Project.clone under a DOUBLE fault — a failure
    while copying AND a failure of a clean-up unlink / rmdir below the destination (shutil.rmtree with
    ignore_errors) — leaves a partial destination that may validate *)
+(* The class is "clone + a first fault during the copy + a second fault that hits the CLEAN-UP", identified by
+   what the second fault hits: the clean-up (shutil.rmtree(dst, ignore_errors=True)) begins with the lstat of the
+   destination directory — the LAST stat of that directory in the run that contains the first fault — and consists
+   of lstat / scandir / unlink / rmdir calls on the destination and below it; any of them failing is ignored and
+   leaves (part of) the partial copy.  The first fault must come before the clean-up, on the source or the
+   destination. *)
+Fixpoint last_occ (s : csig) (tr : list call) (i : nat) (acc : option nat) : option nat :=
+  match tr with
+  | [] => acc
+  | c :: tr' => last_occ s tr' (S i) (if csig_eqb (sig_of c) s then Some i else acc)
+  end.
+
 Definition known_tag_C11 (c : case_C11) : N :=
   match k_op c, k_probe c with
-  | KClone ws i dws, PFault2 s1 _ _ s2 _ _ (Some _) _ =>
+  | KClone ws i dws, PFault2 s1 occ1 e1 s2 occ2 _ (Some _) _ =>
       let d := dst_dir (frepr_of c) (k_op c) (k_pre c) in
-      let cleanup (s : csig) := (ckind_eqb (sg_kind s) SgUnlink || ckind_eqb (sg_kind s) SgRmdir) && under d (sg_p s) in
-      if negb (cleanup s1) && (under d (sg_p s1) || under (ws ++ [i]) (sg_p s1)) && cleanup s2 then 3 else 0
+      match find_occ s1 occ1 (call_list c) 0 with
+      | None => 0
+      | Some k1 =>
+          let tr1 := map fst (trace_fault (single k1 e1) 0 (prog_of c) (k_pre c)) in
+          match find_occ s2 occ2 tr1 0, last_occ {| sg_kind := SgStat; sg_p := d; sg_q := [] |} tr1 0 None with
+          | Some k2, Some start =>
+              if Nat.ltb k1 start && Nat.leb start k2 && under d (sg_p s2)
+                 && (under d (sg_p s1) || under (ws ++ [i]) (sg_p s1)) then 3 else 0
+          | _, _ => 0
+          end
+      end
   | _, _ => 0
   end%N.
 
